@@ -165,6 +165,7 @@ def run(ctx):
                 ctx.disagree("update_to_v23 date", case, model=line, impl=exp)
     check_v1_fields(ctx)
     check_sources(ctx)
+    check_source_frames(ctx)
 
 
 
@@ -245,6 +246,87 @@ def check_sources(ctx):
             if not got or got[0].get("text") != exp:
                 ctx.violation("v23:multivalue:%s" % cls.__name__, "multi-valued %s with separator %r written as %r, expected %r"
                               % (cls.__name__, sep, got[:1], exp), case)
+
+
+def check_source_frames(ctx):
+    """byte-level source tags of every version whose text fields come in every encoding the version allows, with several
+    values and - as taggers that append instead of replace leave them - as repeated frames of one kind (the loader merges
+    those into one multi-valued frame): saved as v2.4 and as v2.3 the tag must be written (no encoding error) and carry
+    every value of the source, in order, in an encoding that can hold them"""
+    from mutagen.id3 import ID3
+    rng = ctx.rng
+
+    def syncsafe(n):
+        return bytes([(n >> 21) & 0x7F, (n >> 14) & 0x7F, (n >> 7) & 0x7F, n & 0x7F])
+
+    def enc_values(enc, values):
+        if enc == 0:
+            return b"\x00" + b"\x00".join(v.encode("latin-1") for v in values)
+        if enc == 1:
+            return b"\x01" + b"\x00\x00".join(b"\xff\xfe" + v.encode("utf-16-le") for v in values)
+        if enc == 2:
+            return b"\x02" + b"\x00\x00".join(v.encode("utf-16-be") for v in values)
+        return b"\x03" + b"\x00".join(v.encode("utf-8") for v in values)
+    LATIN = ["plain", "Mot\u00f6rhead", "x/y", "caf\u00e9 1"]
+    WIDE = ["\u0395\u03bb\u03bb\u03b7\u03bd\u03b9\u03ba\u03ac", "\u65e5\u672c\u8a9e", "\u0416\u0443\u043a", "na\u00efve \u2014 dash"]
+    IDS = [("TT2", "TIT2"), ("TP1", "TPE1"), ("TAL", "TALB"), ("TCM", "TCOM"), ("TT1", "TIT1"), ("TXT", "TEXT")]
+    n = ctx.budget(160, 1500)
+    for i in range(n):
+        ver = (2, 3, 4)[i % 3]
+        encs = (0, 1) if ver < 4 else (0, 1, 2, 3)
+        fid3, fid4 = IDS[(i // 3) % len(IDS)]
+        nframes = rng.choice([1, 2, 2, 3])
+        parts = []; expected = []
+        for j in range(nframes):
+            enc = rng.choice(encs)
+            pool = LATIN if enc == 0 else (WIDE + LATIN if rng.random() < 0.7 else LATIN)
+            vals = rng.sample(pool, rng.choice([1, 1, 2]))
+            parts.append((enc, vals))
+            for v in vals:
+                if v not in expected:
+                    expected.append(v)
+        frames = b""
+        for enc, vals in parts:
+            body = enc_values(enc, vals)
+            if ver == 2:
+                frames += fid3.encode() + len(body).to_bytes(3, "big") + body
+            elif ver == 3:
+                frames += fid4.encode() + len(body).to_bytes(4, "big") + b"\0\0" + body
+            else:
+                frames += fid4.encode() + syncsafe(len(body)) + b"\0\0" + body
+        data = b"ID3" + bytes([ver, 0, 0]) + syncsafe(len(frames) + 20) + frames + b"\0" * 20 + b"\xff\xfb\x90\x00" + b"\0" * 400
+        case = {"sub": "source-frames", "version": ver, "frame": fid4, "parts": [[e, v] for e, v in parts], "data_hex": data[:len(frames) + 30].hex()}
+        shape = "%d-frame%s:%s" % (nframes, "s" if nframes > 1 else "", "mixed-encodings" if len({e for e, _ in parts}) > 1 else "one-encoding")
+        ctx.hist["source-frames:v2.%d:%s" % (ver, shape)] += 1
+        ctx.case(key=("source-frames", ver, fid4, repr(parts)), nontrivial=True, modelled=False, sample=case if i == 7 else None)
+        k, t = timed(lambda: ID3(io.BytesIO(data)), 10)
+        if k != "ok":
+            ctx.violation("source-frames:load-fails", repr(t)[:100], case); continue
+        have = [str(x) for x in t[fid4].text] if fid4 in t else None
+        if have != expected:
+            ctx.violation("source-frames:v2.%d:load" % ver, "the %s values %r of the source load as %r" % (fid4, expected, have), case); continue
+        for target, sep in ((4, None), (3, "/"), (3, None)):
+            k, t = timed(lambda: ID3(io.BytesIO(data)), 10)
+            g = io.BytesIO(data)
+
+            def save():
+                if target == 3:
+                    t.update_to_v23()
+                t.save(g, v2_version=target, v23_sep=sep)
+            k2, r2 = timed(save, 10)
+            c2 = dict(case, target=target, sep=sep)
+            if k2 != "ok":
+                ctx.violation("source-frames:save-fails:v2.%d" % target, "saving the loaded tag as v2.%d raised %r" % (target, r2), c2); continue
+            w = id3spec.walk_tag(g.getvalue())
+            if w.errors or w.version[0] != target:
+                ctx.violation("source-frames:v2.%d:invalid" % target, "written tag invalid: %s version %r" % (w.errors[:2], w.version), c2); continue
+            got = [id3spec.decode_frame(fid, body) for fid, fl, body in w.frames if fid == fid4]
+            exp = [sep.join(expected)] if (target == 3 and sep is not None) else list(expected)
+            if len(got) != 1 or got[0].get("text") != exp:
+                ctx.violation("source-frames:v2.%d:values" % target, "the %s values %r of the v2.%d source are written as %r in the v2.%d tag "
+                              "(separator %r)" % (fid4, expected, ver, [x.get("text") for x in got], target, sep), c2)
+            elif target == 3 and got[0].get("encoding") not in (0, 1):
+                ctx.violation("source-frames:v2.3:encoding", "v2.3 text frame written with encoding %r" % got[0].get("encoding"), c2)
 
 
 def check_v1_fields(ctx):
